@@ -105,4 +105,14 @@ theorem isOptOrthPathCost_act (F : Frame) (seg rev : Rat) (sc : Scene) (s d : Pt
     have := hmin _ hv''
     rwa [← orthPathCost_act F, actRoute_act_inv] at this
 
+/-- the order of `dummyLt` on explicit endpoint pairs is lexicographic in the four coordinates, then the address -/
+theorem dummyLt_aux (p1 p2 q1 q2 : Pt) (a b : Nat) :
+    (if p1 ≠ q1 then ptLt p1 q1 else if p2 ≠ q2 then ptLt p2 q2 else decide (a < b)) =
+    (if p1.x ≠ q1.x then decide (p1.x < q1.x) else if p1.y ≠ q1.y then decide (p1.y < q1.y)
+     else if p2.x ≠ q2.x then decide (p2.x < q2.x) else if p2.y ≠ q2.y then decide (p2.y < q2.y)
+     else if a ≠ b then decide (a < b) else false) := by
+  rcases p1 with ⟨a1, b1⟩; rcases p2 with ⟨c1, d1⟩; rcases q1 with ⟨e1, f1⟩; rcases q2 with ⟨g1, h1⟩
+  simp only [ptLt, ne_eq, Pt.mk.injEq]
+  grind
+
 end AdaptaVerif.Lemmas.FrameCost
